@@ -61,6 +61,12 @@ type ClientCfg struct {
 	// FallbackPort configures the TLS policy through WithTLSPortPolicy, which also sets a
 	// fallback port that is dialled when the first dial fails.
 	FallbackPort bool `json:"fallbackPort,omitempty"`
+	// DefaultDialer: the Client gets no WithDialContextFunc; it uses go-mail's own net.Dialer /
+	// tls.Dialer, whose sockets are the simulated network (builds with the dial seam only).
+	DefaultDialer bool `json:"defaultDialer,omitempty"`
+	// SSLPort: with TLSPolicy "implicit": WithSSLPort(true) instead of WithSSL() — port 465 with
+	// the fallback port 25.
+	SSLPort bool `json:"sslPort,omitempty"`
 }
 
 func (c ClientCfg) host() string {
@@ -80,6 +86,12 @@ func (c ClientCfg) timeout() time.Duration {
 // BuildClient creates the real mail.Client for a configuration.
 func BuildClient(c ClientCfg, dial mail.DialContextFunc, logger mlog.Logger) (*mail.Client, error) {
 	opts := []mail.Option{mail.WithDialContextFunc(dial), mail.WithPort(25), mail.WithTimeout(c.timeout())}
+	if c.DefaultDialer {
+		if !setDefaultDial(dial) {
+			return nil, fmt.Errorf("scenario uses go-mail's default dialer, but this binary has no dial seam")
+		}
+		opts = opts[1:]
+	}
 	var after func(*mail.Client)
 	if c.PolicyVia != "" {
 		var target, weaker mail.TLSPolicy
@@ -124,6 +136,8 @@ func BuildClient(c ClientCfg, dial mail.DialContextFunc, logger mlog.Logger) (*m
 		}
 	case c.TLSPolicy == "none":
 		opts = append(opts, mail.WithTLSPolicy(mail.NoTLS))
+	case c.TLSPolicy == "implicit" && c.SSLPort:
+		opts = append(opts, mail.WithSSLPort(true))
 	case c.TLSPolicy == "implicit":
 		opts = append(opts, mail.WithSSL())
 	default:
